@@ -144,18 +144,25 @@ func DocKey(t *rapid.T, id string) map[string]interface{} {
 	return k
 }
 
+// EndpointURIs are valid URIs (RFC 3986) for service endpoints: the plain ones, and ones that a parser made for
+// something else than URIs trips over (a fragment or a port directly behind the authority, a percent-encoded octet in
+// the host name, an IP literal, user information, an empty or a rootless path, '?' and '/' in query and fragment).
+var EndpointURIs = append(append([]string{}, URIAlphabet...),
+	"https://example.com#hub", "https://example.com:443#hub", "https://ex%61mple.com/hub", "http://[2001:db8::7]:8080/p", "x:", "mailto:a@b.example",
+	"https://u:p@host.example/?q=/?#/?", "http://192.168.0.1/", "tel:+1-816-555-1212", "urn:example:a:b", "https://example.com:/", "http://[v1.fe:x]/")
+
 // DocService draws a service entry that satisfies every validator rule.
 func DocService(t *rapid.T, id string) map[string]interface{} {
 	s := map[string]interface{}{"id": id, "type": rapid.SampledFrom([]string{"LinkedDomains", "DIDCommMessaging", "x", "TypeOfExactlyThirtyCharacters0"}).Draw(t, "svcType")}
 	switch rapid.IntRange(0, 3).Draw(t, "endpointShape") {
 	case 0:
-		s["serviceEndpoint"] = rapid.SampledFrom(URIAlphabet).Draw(t, "endpoint")
+		s["serviceEndpoint"] = rapid.SampledFrom(EndpointURIs).Draw(t, "endpoint")
 	case 1:
-		s["serviceEndpoint"] = []interface{}{rapid.SampledFrom(URIAlphabet).Draw(t, "endpoint"), rapid.SampledFrom(URIAlphabet).Draw(t, "endpoint2")}
+		s["serviceEndpoint"] = []interface{}{rapid.SampledFrom(EndpointURIs).Draw(t, "endpoint"), rapid.SampledFrom(EndpointURIs).Draw(t, "endpoint2")}
 	case 2:
-		s["serviceEndpoint"] = map[string]interface{}{"uri": rapid.SampledFrom(URIAlphabet).Draw(t, "endpoint"), "routingKeys": []interface{}{"did:example:r#1"}}
+		s["serviceEndpoint"] = map[string]interface{}{"uri": rapid.SampledFrom(EndpointURIs).Draw(t, "endpoint"), "routingKeys": []interface{}{"did:example:r#1"}}
 	default:
-		s["serviceEndpoint"] = []interface{}{map[string]interface{}{"uri": rapid.SampledFrom(URIAlphabet).Draw(t, "endpoint")}}
+		s["serviceEndpoint"] = []interface{}{map[string]interface{}{"uri": rapid.SampledFrom(EndpointURIs).Draw(t, "endpoint")}}
 	}
 	if rapid.IntRange(0, 3).Draw(t, "svcExtra") == 0 {
 		s["priority"] = float64(rapid.IntRange(0, 9).Draw(t, "priority"))
